@@ -84,6 +84,48 @@ Proof.
   - intro fo. vm_compute. reflexivity.
 Qed.
 
+(* (3) every text of the RFC 8259 reference grammar `denotes` (TextSpec.v: any whitespace layout, every escape
+   spelling, integers within int64 incl. "-0", duplicate member names, optional BOM) is accepted and yields the denoted
+   value, nesting within the limit.  _partial: the grammar has no fraction/exponent numbers (doubles are oracle inputs). *)
+Theorem C13_parse_valid_partial : forall ora t v w1 w2 bom, denotes t v -> depth v <= JBL_MAX_NESTING_LEVEL ->
+  ws w1 -> ws w2 -> bom = [] \/ bom = [239; 187; 191] ->
+  from_json ora (bom ++ w1 ++ t ++ w2) = Ok (Some v).
+Proof. exact parse_valid. Qed.
+Print Assumptions C13_parse_valid_partial.
+
+Example C13_parse_valid_example :
+  denotes [91; 49; 32; 44; 10; 34; 92;117;48;48;69;57; 92;110; 34; 9; 93] (JArr [JI64 1; JStr [195; 169; 10]]) /\
+  forall ora, from_json ora ([239; 187; 191] ++ [32] ++ [91; 49; 32; 44; 10; 34; 92;117;48;48;69;57; 92;110; 34; 9; 93] ++ [10])
+              = Ok (Some (JArr [JI64 1; JStr [195; 169; 10]])).
+Proof.
+  assert (Hws : forall w, Forall (fun c => c = 32 \/ c = 9 \/ c = 10 \/ c = 13) w -> ws w) by (intros w Hw; exact Hw).
+  assert (H : denotes [91; 49; 32; 44; 10; 34; 92;117;48;48;69;57; 92;110; 34; 9; 93] (JArr [JI64 1; JStr [195; 169; 10]])).
+  { change [91; 49; 32; 44; 10; 34; 92;117;48;48;69;57; 92;110; 34; 9; 93]
+      with (91 :: ([] ++ dec 1 ++ [32] ++ 44 :: ([10] ++ (34 :: render_all [SU 48 48 69 57; SEsc 110] ++ [34]) ++ [9])) ++ [93]).
+    change (JStr [195; 169; 10]) with (JStr (denote_all [SU 48 48 69 57; SEsc 110])).
+    apply D_arr. apply E_cons.
+    - apply Forall_nil.
+    - apply D_int. apply IT_dec. lia.
+    - apply Hws. repeat (apply Forall_cons; [lia|]). apply Forall_nil.
+    - apply E_one.
+      + apply Hws. repeat (apply Forall_cons; [lia|]). apply Forall_nil.
+      + apply D_str. apply Forall_cons; [|apply Forall_cons; [|apply Forall_nil]].
+        * split; [|exact I]. cbn [item_ok]. unfold is_hex, cp4. vm_compute. intuition discriminate.
+        * split; [|exact I]. cbn [item_ok]. auto 10.
+      + apply Hws. repeat (apply Forall_cons; [lia|]). apply Forall_nil. }
+  split; [exact H|]. intro ora.
+  apply C13_parse_valid_partial;
+    [exact H | vm_compute; discriminate
+     | apply Hws; repeat (apply Forall_cons; [lia|]); apply Forall_nil
+     | apply Hws; repeat (apply Forall_cons; [lia|]); apply Forall_nil
+     | right; reflexivity].
+Qed.
+
+(* what the printer writes (any flags) is a text of that grammar denoting the printed tree: valid JSON *)
+Theorem C13_print_in_grammar : forall fo pf v lvl t, wf v -> print_node fo pf lvl v = Ok t -> denotes t v.
+Proof. exact print_in_grammar. Qed.
+Print Assumptions C13_print_in_grammar.
+
 (* (4) with JBL_PRINT_CODEPOINTS the text is pure ASCII *)
 Theorem C13_print_ascii : forall fo pf v lvl t, wf v -> has pf JBL_PRINT_CODEPOINTS = true ->
   print_node fo pf lvl v = Ok t -> Forall (fun b => 0 <= b < 128) t.
